@@ -21,8 +21,8 @@ Inductive op :=
 | OStats (w : which)
 | OLen (w : which)
 | ORange (w : which)
-| OCompact (w : which)              (* one Compaction() call *)
-| OCompactAll (w : which)           (* Compaction() until it reports done *)
+| OCompact (w : which) (ord : list N)   (* one Compaction() call; ord = Go map order reconstructed from the run *)
+| OCompactAll (w : which) (ords : list (list N))   (* Compaction() until it reports done *)
 | OScanAll (w : which) (count : nat) (pat : N)   (* pat: 0 = no pattern, b>0 = keys starting with byte b-1 *)
 | OXfer.                            (* Export first live table of A, Import into B with f = Put, Drop *)
 
@@ -73,17 +73,20 @@ Definition all_hkeys_sorted (t : table) : list N := fold_right insert_sorted [] 
 
 (* Go-map order oracle used for execution: ascending hkeys of the table being drained *)
 Definition ord_for (s : store) : list N :=
-  match find compactable (removelast (stabs s)) with
+  match find compactable (rev (tl (stabs s))) with
   | Some t => all_hkeys_sorted t
   | None => []
   end.
 
-Fixpoint compact_all (fuel : nat) (expired : bool) (s : store) (n : N) : store * option N :=
+(* the reconstructed order first, then whatever it does not mention in ascending order *)
+Definition ord_with (o : list N) (s : store) : list N := o ++ ord_for s.
+
+Fixpoint compact_all (fuel : nat) (expired : bool) (ords : list (list N)) (s : store) (n : N) : store * option N :=
   match fuel with
   | O => (s, None)
   | S f =>
-    let '(s', done) := s_compaction (ord_for s) expired s in
-    if done then (s', Some (n + 1)) else compact_all f expired s' (n + 1)
+    let '(s', done) := s_compaction (ord_with (hd [] ords) s) expired s in
+    if done then (s', Some (n + 1)) else compact_all f expired (tl ords) s' (n + 1)
   end.
 
 Record cfg := { c_size : N; c_fork : bool; c_expired : bool; c_eqsize : bool }.
@@ -115,9 +118,9 @@ Definition step (c : cfg) (x : st) (o : op) : st * obs :=
   | OStats w => let t := s_stats (getw w x) in (x, BStats (st_alloc t) (st_inuse t) (st_garb t) (st_len t) (st_tables t))
   | OLen w => let t := s_stats (getw w x) in (x, BLen (st_len t) (st_inuse t))
   | ORange w => (x, BRange (sort_hv (map (fun r => (rh r, view (re r))) (s_all (getw w x)))))
-  | OCompact w => let s0 := getw w x in
-                  let '(s, d) := s_compaction (ord_for s0) (c_expired c) s0 in (setw w x s, BDone d)
-  | OCompactAll w => let '(s, n) := compact_all 400 (c_expired c) (getw w x) 0 in (setw w x s, BSteps n)
+  | OCompact w o => let s0 := getw w x in
+                    let '(s, d) := s_compaction (ord_with o s0) (c_expired c) s0 in (setw w x s, BDone d)
+  | OCompactAll w os => let '(s, n) := compact_all 400 (c_expired c) os (getw w x) 0 in (setw w x s, BSteps n)
   | OScanAll w count pat =>
       (x, BKeys (option_map (fun rs => sort_keys (map (fun r => ekey (re r)) rs))
                             (s_scan_all (matcher pat) count 400 0 (getw w x))))
@@ -177,11 +180,18 @@ Fixpoint first_diff (c : cfg) (x : st) (l : list (op * obs)) (i : nat) : option 
 Definition run_case (cs : cfg * list (op * obs)) : option (nat * obs) :=
   first_diff (fst cs) (init (fst cs)) (snd cs) 0.
 
-Fixpoint mismatches (l : list (cfg * list (op * obs))) (i : nat) : list (nat * nat * obs) :=
+Fixpoint mismatches (l : list (cfg * list (op * obs))) (i : nat) : list (nat * nat) :=
   match l with
   | [] => []
   | c :: l' => match run_case c with
                | None => mismatches l' (S i)
-               | Some (k, m) => (i, k, m) :: mismatches l' (S i)
+               | Some (k, _) => (i, k) :: mismatches l' (S i)
                end
+  end.
+
+(* the model's own observations for a scenario (printed into replay files) *)
+Fixpoint run_obs (c : cfg) (x : st) (l : list op) : list obs :=
+  match l with
+  | [] => []
+  | o :: l' => let '(x', m) := step c x o in m :: run_obs c x' l'
   end.
